@@ -28,6 +28,9 @@ var crashShapes = [][]string{
 	{"lint", "log.yaml"}, {"lint", "-s", "log.yaml"}, {"lint", "food.yaml"},
 	{"--maxdepth", "1", "--no-color", "reg"}, {"--maxdepth", "2", "csv", "database-resolved"}, {"--no-database", "report", "totals"},
 	{"--date-format", "2006-01-02", "print"},
+	{"--no-database", "csv", "database"}, {"--no-database", "csv", "database-resolved"}, {"--no-database", "report", "element-total", "calories"}, {"--no-database", "stats"},
+	{"--no-database", "--no-color", "reg"}, {"--no-database", "bal", "-s", "calories"}, {"-d", "", "csv", "database"}, {"-l", "", "csv", "log"}, {"-l", "", "print"},
+	{"reg", "-s", "Calories"}, {"reg", "-s", "CALORIES", "--csv"}, {"bal", "-s", "Fat"}, {"reg", "-s", "Calories", "-g"}, {"reg", "-f", "FOOD1"},
 	{"--maxdepth", "0", "--no-color", "reg"}, {"--maxdepth", "-1", "csv", "database-resolved"}, {"--maxdepth", "0", "report", "element-total", "calories"},
 }
 
